@@ -18,5 +18,9 @@ CHECKS = {
  'C05': {'level': 'exploration', 'technique': LAT,
          'text': 'svd and pinv are executed for every split index at every point of order x row dims x rank vector x dtype x family (generic, rank-deficient unfoldings, integers) x ortho flags x overwrite x threshold x max_rank and compared with numpy.linalg.svd/pinv of the unfolding: orthonormal factors, singular values, reconstruction, conjugate-transposed pseudoinverse, input bit-identity iff overwrite=False.',
          'note': 'bounds: order 2-3 (4), row sizes <= 3, ranks <= 3; thresholds in a spectral gap (D7); pinv on rank-deficient unfoldings only with threshold > 0.'},
+
+ 'C06': {'level': 'model_checking', 'engine': 'explorer', 'technique': 'explicit-state breadth-first model checking of API-call histories on the live implementation (replay-from-scratch, canonical state hashing, shadow-model invariants after every transition)',
+         'text': 'Breadth-first search over every history of API calls (89-operation alphabet: TT algebra, contractions, in-place/overwrite variants, user-level element writes, linear/eigen solvers, all ODE integrators) on 11 initial pools of live tensor trains, results fed back as operands, states deduplicated by metadata + memory-layout flags + buffer-sharing partition; after every transition every live object is compared with its NumPy shadow (value, metadata), every returned TT is checked for consistency. Quick: all histories of length <= 2 plus all length-3 histories ending in an in-place call on a target that shares buffers; thorough: all histories of length <= 3 plus the reduced level 4.',
+         'note': 'values are excluded from the state hash (argument in DESIGN.md C06); at most 2 in-place calls per history; pool capacity 5; numerically conditioned routines that raise are treated as disabled transitions (arguments still checked); overwrite=True variants of svd/pinv consume self.'},
 }
 NOT_APPLICABLE = {}
